@@ -27,14 +27,25 @@ CONSTANTS MaxMut,       \* total number of mutations applied to the base schema 
           MaxOldMut,    \* how many of them may be spent on `old`
           Chain         \* TRUE: enumerate chains of two successive updates
 
-DeclNames == {"S", "R", "E", "I", "I2", "T"}
+DeclNames == {"S", "R", "E", "I", "I2", "T", "U", "V", "W"}
 Absent == [kind |-> "absent", fields |-> << >>, confs |-> {}, cases |-> << >>, raw |-> "-"]
 F(n, ty, vr, acc) == [n |-> n, ty |-> ty, vr |-> vr, acc |-> acc]
 
 \* ---------------------------------------------------------------- types (closed universe of names)
 \* which declaration a type name mentions ("-" = none); qualified names denote the same type
-Norm(t) == IF t = "C.E" THEN "E" ELSE t
-Mention(t) == CASE Norm(t) = "E" -> "E" [] t = "S" -> "S" [] t = "{I}" -> "I" [] t = "T" -> "T" [] OTHER -> "-"
+\* SPELLING: a nominal type may be written simple (`U`) or contract-qualified (`C.U`) at every position of a
+\* field type (direct, optional, array element, dictionary value, intersection member); both spellings
+\* denote the same type, and only the denoted type matters for the judgement
+Norm(t) == CASE t = "C.E" -> "E" [] t = "C.U" -> "U" [] t = "C.V" -> "V"
+             [] t = "C.U?" -> "U?" [] t = "C.V?" -> "V?"
+             [] t = "[C.U]" -> "[U]" [] t = "[C.V]" -> "[V]"
+             [] t = "{String:C.U}" -> "{String:U}" [] t = "{String:C.V}" -> "{String:V}"
+             [] t = "{C.I}" -> "{I}" [] t = "{C.I2}" -> "{I2}"
+             [] OTHER -> t
+Mention(t) == CASE Norm(t) = "E" -> "E" [] t = "S" -> "S" [] Norm(t) = "{I}" -> "I" [] Norm(t) = "{I2}" -> "I2" [] t = "T" -> "T"
+                [] Norm(t) \in {"U", "U?", "[U]", "{String:U}"} -> "U"
+                [] Norm(t) \in {"V", "V?", "[V]", "{String:V}"} -> "V"
+                [] OTHER -> "-"
 SameType(t, u) == Norm(t) = Norm(u)
 \* alternatives a field of type t is retyped to
 Alt(t) == CASE t = "Int"          -> {"String", "Int8", "Int?", "Integer", "AnyStruct"}
@@ -42,8 +53,15 @@ Alt(t) == CASE t = "Int"          -> {"String", "Int8", "Int?", "Integer", "AnyS
             [] t = "[Int]"        -> {"[Int;2]", "[Int8]", "[AnyStruct]"}
             [] t = "{String:Int}" -> {"{String:Int?}", "{Int:Int}"}
             [] t = "E"            -> {"C.E", "UInt8"}
-            [] t = "S"            -> {"{I}", "AnyStruct"}
+            [] t = "S"            -> {"{I}", "{C.I}", "AnyStruct"}
             [] t = "String"       -> {"Int", "String?"}
+            \* spelling x {same type, other local struct, other kind}
+            [] t = "U"            -> {"C.U", "V", "C.V", "C.E"}
+            [] t = "C.U"          -> {"U", "V", "C.V", "E"}
+            [] t = "U?"           -> {"C.U?", "V?", "C.V?"}
+            [] t = "[C.U]"        -> {"[U]", "[V]", "[C.V]"}
+            [] t = "{String:U}"   -> {"{String:C.U}", "{String:V}", "{String:C.V}"}
+            [] t = "{I}"          -> {"{C.I}", "{I2}", "{C.I2}"}
             [] OTHER              -> {}
 
 Base == [decls |-> [d \in DeclNames |->
@@ -53,6 +71,11 @@ Base == [decls |-> [d \in DeclNames |->
                                 !.fields = << F("a", "Int", "let", "all"), F("b", "String", "var", "all"),
                                               F("e", "E", "let", "all"), F("arr", "[Int]", "let", "all"),
                                               F("opt", "Int?", "let", "all"), F("dict", "{String:Int}", "let", "all") >>]
+              [] d \in {"U", "V"} -> [Absent EXCEPT !.kind = "struct", !.fields = << F("a", "Int", "let", "all") >>]
+              \* W holds a local nested struct at every position, in both spellings
+              [] d = "W" -> [Absent EXCEPT !.kind = "struct",
+                                !.fields = << F("u", "U", "let", "all"), F("qu", "C.U", "let", "all"), F("ou", "U?", "let", "all"),
+                                              F("au", "[C.U]", "let", "all"), F("du", "{String:U}", "let", "all") >>]
               [] d = "R" -> [Absent EXCEPT !.kind = "resource",
                                 !.fields = << F("s", "S", "let", "all"), F("id", "Int", "let", "all") >>]
               [] OTHER   -> Absent],
@@ -95,6 +118,11 @@ FieldMuts(sc, d) ==
   \cup {M(<<"letToVar", d, fs[i].n>>, WithFields(sc, d, [fs EXCEPT ![i].vr = "var"])) : i \in {j \in 1..Len(fs) : fs[j].vr = "let"}}
   \cup {M(<<"narrowAccess", d, fs[i].n>>, WithFields(sc, d, [fs EXCEPT ![i].acc = "self"])) : i \in {j \in 1..Len(fs) : fs[j].acc = "all" /\ j <= 2}}
   \cup {M(<<"renameField", d, fs[i].n>>, WithFields(sc, d, [fs EXCEPT ![i].n = @ \o "2"])) : i \in {j \in 1..Len(fs) : j = 1}}
+
+\* the holder of nominal types is only re-typed (spelling and / or denoted type)
+RetypeMuts(sc, d) ==
+  LET fs == sc.decls[d].fields IN
+  UNION {{M(<<"retypeField", d, fs[i].n, t>>, WithFields(sc, d, [fs EXCEPT ![i].ty = t])) : t \in AltIn(sc, fs[i].ty)} : i \in 1..Len(fs)}
 
 ContractFieldMuts(sc) ==
   LET fs == sc.cfields IN
@@ -158,6 +186,7 @@ KindMuts(sc) ==
   \cup (IF sc.decls["T"].kind = "struct" THEN {M(<<"kindChange", "T", "resource">>, [Drop(sc, "T") EXCEPT !.decls["T"] = [sc.decls["T"] EXCEPT !.kind = "resource"]])} ELSE {})
 
 Muts(sc) == UNION {FieldMuts(sc, d) : d \in {x \in {"S", "R", "T"} : Composite(sc, x)}}
+            \cup (IF Composite(sc, "W") THEN RetypeMuts(sc, "W") ELSE {})
             \cup ContractFieldMuts(sc) \cup ConfMuts(sc) \cup DeclMuts(sc) \cup EnumMuts(sc) \cup KindMuts(sc)
             \cup RedeclareMuts(sc)
 
@@ -184,7 +213,7 @@ TypeUsable(old, new, d, fuel) ==
         LET m == Mention(new.decls[d].fields[i].ty) IN
         (m # "-" /\ Present(old, m)) => TypeUsable(old, new, m, fuel - 1)
 \* declarations of which instances are stored (directly, as elements, as interface-typed elements)
-Stored == {"S", "R", "E", "I"}
+Stored == {"S", "R", "E", "I", "W"}
 Usable(old, new) ==
   /\ \A d \in Stored : Quantified(old, new, d) => TypeUsable(old, new, d, 4)
   /\ \A i \in 1..Len(new.cfields) :
@@ -233,6 +262,9 @@ WellFormed(sc) ==
 SchemasWellFormed == WellFormed(first) /\ WellFormed(old) /\ WellFormed(new)
 UsableReflexive == Usable(old, old) /\ Usable(new, new)
 \* what the probe of the design round established, as lemmas about the judgement
+\* a re-type of a field of the base schema keeps the denoted type (only the spelling changes)
+BaseFieldTy(d, f) == LET fs == Base.decls[d].fields IN fs[CHOOSE i \in 1..Len(fs) : fs[i].n = f].ty
+SpellingOnlyRetype(m) == m[2] = "retypeField" /\ SameType(BaseFieldTy(m[3], m[4]), m[5])
 Lemmas ==
   \* a re-declared removed type never keeps the values stored under the version that still had it
   /\ (nupd = 1 /\ Len(ms) >= 3 /\ ms[Len(ms)][2] = "redeclareRemoved" /\ Present(first, ms[Len(ms)][3])
@@ -244,7 +276,7 @@ Lemmas ==
        /\ m \in {"addField", "retypeField", "renameField", "removeConformance", "swapConformance", "removeDecl",
                  "enumRemoveCase", "enumSwapCases", "enumRenameCase", "enumRawType", "kindChange",
                  "addContractField", "retypeContractField", "moveFieldToNewType"}
-            => (Usable(old, new) <=> (m = "retypeField" /\ ms[1][5] = "C.E"))
+            => (Usable(old, new) <=> SpellingOnlyRetype(ms[1]))
        /\ m \in {"removeField", "reorderFields", "letToVar", "narrowAccess", "addConformance", "addDecl",
                  "removeDeclWithPragma", "removeContractField"} => Usable(old, new)
        /\ m = "enumAddCase" => (Usable(old, new) <=> ms[1][3] = "end")
